@@ -20,6 +20,7 @@ mod c12;
 mod fmt;
 mod c16;
 mod corpus;
+mod lub;
 
 use common::Opts;
 use std::path::PathBuf;
